@@ -106,3 +106,16 @@ mod test {
         assert_eq!(cmr[0], 0x70);
     }
 }
+
+// ---------------------------------------------------------------------------------------------
+// verification hooks (feature `verif-hooks`)
+#[cfg(feature = "verif-hooks")]
+#[doc(hidden)]
+impl CountMinRow {
+    pub(crate) fn verif_from_vec(v: Vec<u8>) -> Self {
+        Self(v)
+    }
+    pub(crate) fn verif_bytes(&self) -> &[u8] {
+        &self.0
+    }
+}
